@@ -105,6 +105,9 @@ def run(ctx):
     for i in range(n_rand):
         v = 1 if ctx.rng.random() < 0.1 else 2
         req, st = random_request(ctx.rng, v)
+        if i % 3 == 2:
+            # the same bytes in another spelling the validators accept (case, blanks between bytes, ...)
+            enc.respell_sign_request(req, ctx.rng, p=ctx.rng.choice([1.0, 0.4]))
         if ctx.rng.random() < 0.5:
             sizes = random.Random(ctx.rng.random())
             pol = FaithfulSignPolicy(size=lambda part, remaining: sizes.randint(1, min(255, max(1, remaining))))
@@ -148,6 +151,8 @@ def run(ctx):
                 what = "first"
             sizes = random.Random(ctx.rng.random())
             pol = FaithfulSignPolicy(size=lambda part, remaining: sizes.randint(1, min(255, max(1, remaining))))
+            if (i + link) % 4 == 3:
+                req = enc.respell_sign_request(copy.deepcopy(req), ctx.rng, p=0.5)
             t, meta = bench.run(req, st, pol, ctx.rng, coop=True)
             record(t, meta, {"src": "chain", "version": 2, "mode": st.get("mode"), "link": link, "changed": what})
             n_links += 1
